@@ -36,6 +36,7 @@ Next == /\ Len(hist) < MaxLen
            \/ (MultiChange /\ \E u \in Uris, t1 \in Texts, t2 \in Texts : t1 # t2 /\ DidChange(u, <<t1, t2>>))
            \/ \E u \in Uris, p \in 1..NProbes : Query("hover", u, p) \/ Query("definition", u, p)
            \/ \E u \in Uris : Query("symbols", u, 0)
+           \/ \E u \in Uris, p \in 1..2 : Query("other", u, p)      \* initialize / a method the server does not implement: no effect on any document
 Spec == Init /\ [][Next]_vars
 
 \* design level: what a query is answered from is the last text set on THAT document
